@@ -64,6 +64,7 @@ def C01(ctx):
     T.c09_t1(ctx, f)
     T.c09_t2(ctx, f)
     x("c02_r3", ctx, f)
+    G.c02_r4(ctx, f)
     x("c01_r4", ctx, f)
     G.prepare(ctx, f, {"blank", "format", "masks", "place"})
     G.c03_r3(ctx, f)
@@ -88,6 +89,7 @@ def C02(ctx):
     T.c07_r1(ctx, f, lay, deg)
     E.c02_r2(ctx, f)
     x("c02_r3", ctx, f)
+    G.c02_r4(ctx, f)
     return dict(
         level="other",
         explanation="Exhaustive table obligations: every cell of the block-layout, data-codeword, total-codeword, remainder-bit and "
@@ -182,6 +184,9 @@ def C07(ctx):
     T.c07_t1(ctx, f)
     T.c07_r1(ctx, f, lay, deg)
     x("c07_r2", ctx, f)
+    E.c02_r2(ctx, f)
+    x("c02_r3", ctx, f)
+    G.c02_r4(ctx, f)
     return dict(
         level="other",
         explanation="510 reachable GF(256)/0x11D table cells, 13 generator polynomials recomputed from the definition, the 160-cell "
@@ -253,6 +258,7 @@ def C11(ctx):
     R.c11_rules(ctx, f)
     T.c11_t1(ctx, f)
     x("c11_r6", ctx, f)
+    x("c11_r7", ctx, f)
     return dict(
         level="other",
         explanation="All eight masks are tried, each candidate must be ranked by a penalty every argument of which depends on that "
@@ -289,6 +295,8 @@ def C13(ctx):
     I.c13_r1(ctx, f)
     I.c13_t1(ctx, f)
     I.c13_r2(ctx, f)
+    S.c12_r4(ctx, f)
+    S.c12_r6(ctx, f)
     return dict(
         level="other",
         explanation="Pixel values come from resvg/tiny-skia, whose bodies are not local MIR: not decided. Decided: all 11 Builder "
